@@ -218,10 +218,11 @@ _cache = {}
 
 
 def facts(ctx, K):
-    key = (id(ctx), K)
-    if key not in _cache:
-        _cache[key] = ClassFacts(ctx, K)
-    return _cache[key]
+    cache = ctx.__dict__.setdefault("_rule_cache", {})
+    key = ("gates", K)
+    if key not in cache:
+        cache[key] = ClassFacts(ctx, K)
+    return cache[key]
 
 
 def failing_gates(K, valuation):
